@@ -105,7 +105,12 @@ impl Author {
 
 /// src/sync.rs `system_time_now()` (A-clock): wall clock in microseconds; assumed not within ten minutes of u64::MAX
 /// (year 586_524 CE), which is the no-overflow precondition of `validate_entry`.
+/// `is_clock_reading(t)`: t is a value this function has returned (uninterpreted; lets contracts say "the local clock"
+/// instead of "some number").
+pub uninterp spec fn is_clock_reading(t: u64) -> bool;
 #[verifier::external_body]
 fn system_time_now() -> (r: u64)
-    ensures r <= u64::MAX - MAX_TIMESTAMP_FUTURE_SHIFT
+    ensures
+        r <= u64::MAX - MAX_TIMESTAMP_FUTURE_SHIFT,
+        is_clock_reading(r),
 { unimplemented!() }
